@@ -27,8 +27,8 @@ def scenarios(quick):
                             out.append(scenario(st, fns, base + [env("BhAcquire", 1, x=7, id="b"), env("BhAcqCancel", 2, x=7), env("BhRelease", 9, id="b")] if False else
                                                 base + [env("BhAcquire", 1, x=7, id="b"), env("BhAcqCancel", 2, x=7)]))
     for st in ([bh("b", 1), bh("b", 1)], [bh("b", 2), bh("c", 1)], [bh("b", 2, wait=2), retry(1, dly=1), bh("c", 1)]):
-        for starts in ((0, 0, 0), (0, 1, 1)):
-            fns = [[fn(2, "R1", None, True)] * 3] * 3
+        for starts in ((0, 0), (0, 1)):
+            fns = [[fn(2, "R1", None, True)] * 3] * 2
             sc = scenario(st, fns, [start(i + 1, at) for i, at in enumerate(starts)])
             sc["bhmax"] = {d["id"]: d["max"] for d in st if d["k"] == "bh"}
             out.append(sc)
